@@ -197,6 +197,11 @@ def run(ctx):
     from .c09 import single_owner_rule, tracked_before_start_rule
     tracked_before_start_rule(ctx, program, "R12.9")
     single_owner_rule(ctx, program, "R12.9")
+    ctx.rule("R12.11", "stopping a context (unload, reload, failed load) reaches every function registered in it - also one still queued for a delayed start, "
+             "whose legacy @service names were registered at definition time and are released only by its trigger_stop", floor=4)
+    from .c09 import context_stop_table
+    context_stop_table(ctx, program, "R12.11")
+
     ctx.rule("R12.3", "service handlers pass trigger_type='service', the call context and the call data, run the function in its own task and return its result", floor=2)
     for uid in ("eval.py::EvalFunc.trigger_init.pyscript_service_factory.pyscript_service_handler", "decorators/service.py::ServiceDecorator._service_callback"):
         f = program.func(uid)
